@@ -52,7 +52,9 @@ def zoo(rng):
             np.array([(1, 2.5), (3, 4.5)], dtype=[('a', 'i4'), ('b', 'f8')]), np.rec.array([(1, 2.0)], dtype=[('x', 'i8'), ('y', 'f4')]),
             np.arange(12.0).reshape(3, 4)[::2, ::3], np.asfortranarray(np.arange(6).reshape(2, 3)), np.float32(1.5), np.array(7),
             np.array(['ab', 'cde']), np.array([b'x'], dtype='S3'), np.array(['2020-01-01'], dtype='datetime64[D]'),
-            np.arange(4).astype('>i2'), np.bool_(True), np.zeros((0, 3)), np.array([[1 + 2j]])]
+            np.arange(4).astype('>i2'), np.bool_(True), np.zeros((0, 3)), np.array([[1 + 2j]]),
+            # bytes whose content happens to be a pickle (messages already serialised upstream): they are bytes, and stay bytes
+            pickle.dumps({'msg': 1, 'body': [1, 2]}), b'N.', pickle.dumps(b'inner'), pickle.dumps(None, protocol=0), bytearray(b'N.')]
 
 
 def sized_element(target):
@@ -102,15 +104,32 @@ def same_after_pickle(back, orig):
         return False
 
 
-def run_case(ctx, tmp, case_id, elems, stop, k, level, target, exc='boom'):
+def run_case(ctx, tmp, case_id, elems, stop, k, level, target, exc='boom', edit=False):
     cwd = os.getcwd()
     try:
-        return _run_case(ctx, tmp, case_id, elems, stop, k, level, target, exc)
+        return _run_case(ctx, tmp, case_id, elems, stop, k, level, target, exc, edit)
     finally:
         os.chdir(cwd)
 
 
-def _run_case(ctx, tmp, case_id, elems, stop, k, level, target, exc):
+def _edit_in_place(g):
+    """a consumer that works on the element it was handed (scales the frame, appends to the record): its business — what passed the tap is
+    what the archive replays"""
+    try:
+        if isinstance(g, np.ndarray) and g.dtype.kind in 'if' and g.flags.writeable and g.size and not isinstance(g, np.ma.MaskedArray):
+            g *= 2
+            g += 1
+        elif isinstance(g, list):
+            g.append('edited by the consumer')
+        elif isinstance(g, dict):
+            g['edited'] = True
+        elif isinstance(g, bytearray):
+            g.extend(b'!!')
+    except Exception:  # noqa
+        pass
+
+
+def _run_case(ctx, tmp, case_id, elems, stop, k, level, target, exc, edit=False):
     from generatorpipeline.streamfunctions import savestream, loadstream
     n = len(elems)
     fail = exc if stop == 'srcfail' else False
@@ -132,7 +151,12 @@ def _run_case(ctx, tmp, case_id, elems, stop, k, level, target, exc):
     else:
         f = io.BytesIO()
         fobj = f
-    case = dict(n=n, stop=stop, k=k, compresslevel=level, target=target, source_exception=exc if fail else None,
+    if edit:
+        import copy
+        elems = [copy.deepcopy(e) for e in elems]
+        src = Src(elems, fail)
+    snaps = []
+    case = dict(n=n, stop=stop, k=k, compresslevel=level, target=target, source_exception=exc if fail else None, consumer_edits_elements_in_place=edit,
                 elements=[type(e).__name__ + (':%d' % e.size if isinstance(e, np.ndarray) else '') for e in elems])
     stream = savestream(src, f, compresslevel=level)
     hist = []
@@ -148,6 +172,9 @@ def _run_case(ctx, tmp, case_id, elems, stop, k, level, target, exc):
                 demands.append('N')
                 got.append(next(stream))
                 hist.append((src.i, len(got)))
+                if edit:
+                    snaps.append(pickle.loads(pickle.dumps(got[-1])))
+                    _edit_in_place(got[-1])
                 if chdir_after == len(got):
                     os.chdir(os.path.join(tmp, 'elsewhere'))
             if stop == 'close':
@@ -161,6 +188,9 @@ def _run_case(ctx, tmp, case_id, elems, stop, k, level, target, exc):
                 demands.append('N')
                 got.append(next(stream))
                 hist.append((src.i, len(got)))
+                if edit:
+                    snaps.append(pickle.loads(pickle.dumps(got[-1])))
+                    _edit_in_place(got[-1])
                 if chdir_after == len(got):
                     os.chdir(os.path.join(tmp, 'elsewhere'))
     except StopIteration:
@@ -190,6 +220,8 @@ def _run_case(ctx, tmp, case_id, elems, stop, k, level, target, exc):
     finally:
         if target == 'fileobj':
             fobj.close()
+    if edit:
+        elems = snaps            # what passed the tap, as it was when it passed
     if len(back) != expect_k or not all(same_after_pickle(a, b) for a, b in zip(back, elems)):
         ctx.fail('archive-replay-differs:' + stop, 'the archive replays %d elements, the consumer received %d (stop: %s); first difference at %s' % (
             len(back), expect_k, stop, next((i for i, (a, b) in enumerate(zip(back, elems)) if not same_after_pickle(a, b)), min(len(back), expect_k))), case)
@@ -284,7 +316,10 @@ def check(ctx):
                 cid += 1
                 level = rng.randint(0, 9)
                 target = rng.choice(['name', 'fileobj', 'bytesio', 'relname'])
-                case, r = run_case(ctx, tmp, cid, elems, stop, k, level, target, exc=rng.choice(['boom', 'boom', 'interrupt', 'exit']))
+                edit = rng.random() < 0.25
+                case, r = run_case(ctx, tmp, cid, elems, stop, k, level, target, exc=rng.choice(['boom', 'boom', 'interrupt', 'exit']), edit=edit)
+                if edit:
+                    ctx.count('consumer_edits_in_place')
                 ctx.case((case['elements'], stop, k, level, target), stop != 'exhaust' and 1 <= k and (k < n or stop == 'srcfail'),
                          sample=case if n <= 3 else None)
                 ctx.count('stop:' + stop)
